@@ -877,3 +877,32 @@ Proof.
   unfold load. destruct (load_from content sok (2 + pot content U []) empty_graph roots) as [g' ok].
   simpl in H. subst ok. exists g'. reflexivity.
 Qed.
+
+(* ---- the root hypothesis of reload_equiv is necessary (finding gc-drops-nested-manifest) ----
+   Before the fix, gcIndex dropped the by-digest entry of a manifest nested under a
+   tagged root; after Delete of the root the nested manifest (2 below, referencing blob 0)
+   was still stored but no longer a root of index.json: the reloaded graph omits it. *)
+Definition wit_ct : amap := [(2, [0])]%N.
+Definition wit_live : graph := pushes (ctab wit_ct) [0; 2]%N.
+Definition wit_sok (x : node) : bool := N.leb x 2.
+
+Lemma reload_without_root_refuted :
+  exists content sok fuel roots g g' n,
+    Inv content g /\
+    (forall p, In p (g_nodes g) -> sok p = true) /\
+    (forall p, sok p = true -> content p <> [] -> In p (g_nodes g)) /\
+    load content sok fuel roots = (g', true) /\
+    ~ Permutation (predecessors g' n) (predecessors g n).
+Proof.
+  exists (ctab wit_ct), wit_sok, 10, [], wit_live, empty_graph, 0%N.
+  split; [apply pushes_Inv, Inv_empty|].
+  split.
+  { vm_compute. intros p H. repeat (destruct H as [<-|H]; [reflexivity|]). destruct H. }
+  split.
+  { intros p Hs Hne. vm_compute.
+    destruct (N.eq_dec p 2) as [->|H2]; [auto|].
+    exfalso. apply Hne. unfold ctab, getd, wit_ct. simpl.
+    destruct (N.eqb_spec p 2); [congruence | reflexivity]. }
+  split; [reflexivity|].
+  vm_compute. intro HP. apply Permutation_nil in HP. discriminate.
+Qed.
